@@ -343,6 +343,10 @@ impl Prop for C07 {
         vec![("fuzz_sorter", 5_000)]
     }
 
+    fn extra(&self, tier: Tier, _seed: u64, ctx: &crate::runner::ExtraCtx) -> crate::runner::ExtraOut {
+        small_scope(tier, ctx.threads)
+    }
+
     fn run(&self, case: &Case, obs: &mut Obs) -> Check {
         let inserts = prepared(case.kind, &case.src);
         let model_in = model_inserts(case.kind, &case.src);
@@ -414,4 +418,109 @@ impl Prop for C07 {
             "create_calls": created, "final_chunks": chunks.len(), "first_keys": inserts.iter().take(4).map(|e| brief(&e.0)).collect::<Vec<_>>()}));
         Ok(())
     }
+}
+
+/// Bounded-exhaustive: EVERY insert sequence of length <= L over the keys {"", "a", "b"} (values numbered by position),
+/// for every spill rhythm (a 256-byte budget without reallocation and values sized so that the buffer holds exactly
+/// 1, 2, 3 or all entries, plus empty values: zero-size entries for the untagged sum function), every chunk limit in {1, 2, 3}, both sort algorithms and every merge function; all three
+/// exits are taken and judged by the same oracle as the generated cases.
+pub fn small_scope(tier: Tier, threads: usize) -> crate::runner::ExtraOut {
+    use std::sync::atomic::{AtomicU64, Ordering};
+    let keys: [&[u8]; 3] = [b"", b"a", b"b"];
+    let max_len = tier.pick(7usize, 9);
+    // entry cost in the buffer = key + value + 16 bytes of bounds: 256-byte buffer holds 1 / 2 / 3 / all entries
+    let vlens = [130u32, 68, 48, 2, 0];
+    let mut total = 0u64;
+    for l in 0..=max_len {
+        total += 3u64.pow(l as u32);
+    }
+    let next = AtomicU64::new(0);
+    let done = AtomicU64::new(0);
+    let nontrivial = AtomicU64::new(0);
+    let failure: std::sync::Mutex<Option<(Fail, serde_json::Value)>> = std::sync::Mutex::new(None);
+    std::thread::scope(|s| {
+        for _ in 0..threads.max(1) {
+            s.spawn(|| loop {
+                let i = next.fetch_add(1, Ordering::Relaxed);
+                if i >= total || failure.lock().unwrap().is_some() {
+                    break;
+                }
+                let mut rem = i;
+                let mut len = 0usize;
+                loop {
+                    let c = 3u64.pow(len as u32);
+                    if rem < c {
+                        break;
+                    }
+                    rem -= c;
+                    len += 1;
+                }
+                let mut digits = Vec::with_capacity(len);
+                for _ in 0..len {
+                    digits.push((rem % 3) as usize);
+                    rem /= 3;
+                }
+                for vlen in vlens {
+                    let list: Vec<(Blob, Blob)> =
+                        digits.iter().enumerate().map(|(j, d)| (Blob::Lit(keys[*d].to_vec()), if vlen == 0 { Blob::Lit(vec![]) } else { Blob::Pad { fill: 0x5a, n: vlen - 1, tail: vec![j as u8] } })).collect();
+                    for max_nb_chunks in [1usize, 2, 3] {
+                        for stable in [true, false] {
+                            for kind in MergeKind::ALL {
+                                let case = Case {
+                                    conf: SConf {
+                                        threshold: Threshold::Exact(256),
+                                        init_cap: Some(256),
+                                        allow_realloc: false,
+                                        max_nb_chunks,
+                                        stable,
+                                        parallel: false,
+                                        chunk_codec: None,
+                                        chunk_level: None,
+                                        block_size: None,
+                                        interval: None,
+                                        levels: None,
+                                        creator: CreatorKind::CursorVec,
+                                        order: 0,
+                                    },
+                                    kind,
+                                    src: InsertSrc::List(list.clone()),
+                                };
+                                let mut obs = Obs::default();
+                                let r = catch(|| C07.run(&case, &mut obs)).unwrap_or_else(|p| Err(Fail::new("c07:harness-panic", p)));
+                                done.fetch_add(1, Ordering::Relaxed);
+                                if obs.nontrivial {
+                                    nontrivial.fetch_add(1, Ordering::Relaxed);
+                                }
+                                if let Err(f) = r {
+                                    let mut g = failure.lock().unwrap();
+                                    if g.is_none() {
+                                        let ks: Vec<String> = digits.iter().map(|d| brief(keys[*d])).collect();
+                                        *g = Some((
+                                            Fail::new(
+                                                format!("{}:small-scope", f.signature),
+                                                format!("insert sequence [{}] with {}-byte values, max_nb_chunks {}, stable {}, {:?}: {}", ks.join(", "), vlen, max_nb_chunks, stable, kind, f.msg),
+                                            ),
+                                            serde_json::to_value(&case).unwrap_or_default(),
+                                        ));
+                                    }
+                                    return;
+                                }
+                            }
+                        }
+                    }
+                }
+            });
+        }
+    });
+    let mut out = crate::runner::ExtraOut::default();
+    let d = done.into_inner();
+    out.evaluations = d;
+    out.nontrivial = nontrivial.into_inner();
+    out.counters.insert("small_scope_sorters".into(), d);
+    out.samples.push(json!({"kind": "small-scope", "keys": ["", "a", "b"], "max_len": max_len, "sequences": total, "value_lengths": vlens,
+        "max_nb_chunks": [1, 2, 3], "sort": ["stable", "unstable"], "merge_functions": MergeKind::ALL.len(), "cases": d}));
+    if let Some(f) = failure.into_inner().unwrap() {
+        out.violations.push(f);
+    }
+    out
 }
